@@ -28,6 +28,10 @@
 (*                          matrices and evaluates the closeness law        *)
 (*  samp   r                float-only residuals at large beta*gamma,       *)
 (*                          normalised by eps*gamma^2 (sampled, kind N)     *)
+(*  approx r                fallback when the implementation's explicit     *)
+(*                          matrix is NOT rational at a lattice point: the  *)
+(*                          residuals of the laws, evaluated by the driver  *)
+(*                          in floating point, in units of 10^-12           *)
 (*                                                                         *)
 (* A failing clause prints <<"REJECT", clause, id, info>> and the record is*)
 (* still consumed, so every rejection of a batch is reported.  A record the*)
@@ -45,7 +49,7 @@ Rec == Log[l]
 Clause(name, ok, info) == IF ok THEN TRUE ELSE PrintT(<<"REJECT", name, Rec.id, info>>)
 Precond(name, ok, info) == IF ok THEN TRUE ELSE PrintT(<<"BADREC", name, Rec.id, info>>)
 
-Kinds == {"start", "step", "inv", "zag", "rot", "args", "num", "samp"}
+Kinds == {"start", "step", "inv", "zag", "rot", "args", "num", "samp", "approx"}
 Counters == Kinds \cup {"proper", "detexact", "rest", "reference", "numentries"}
 Bump(c, ks) == [k \in Counters |-> IF k \in DOMAIN ks THEN c[k] + ks[k] ELSE c[k]]
 Consume(ks) ==
@@ -223,13 +227,20 @@ TSamp ==
   /\ Clause("SampledLaws", Rec.finite = 1 /\ \A i \in 1..Len(Rec.r) : Rec.r[i] >= 0 /\ Rec.r[i] <= SampBound, Rec.r)
   /\ Consume([samp |-> 1])
 
+\* the explicit matrix was not rational on the lattice: the laws are adjudicated numerically
+ApproxTol == 10
+TApprox ==
+  /\ Rec.k = "approx" /\ Same
+  /\ Clause("ExplicitLawsNumerically", Rec.finite = 1 /\ \A i \in 1..Len(Rec.r) : Rec.r[i] >= 0 /\ Rec.r[i] <= ApproxTol, Rec.r)
+  /\ Consume([approx |-> 1])
+
 ------------------------------------------------------------------------------
 TraceInit ==
   /\ M = Id /\ p = <<One, Zero, Zero, Zero>> /\ p0 = <<One, Zero, Zero, Zero>> /\ mass = One
   /\ n = 0 /\ prev = Id /\ last = [a |-> "Init", par |-> <<>>]
   /\ l = 1 /\ st = [k \in Counters |-> 0]
   /\ TLCSet(1, FALSE)
-TraceNext == l <= Len(Log) /\ (TStart \/ TStep \/ TInv \/ TZag \/ TRot \/ TArgs \/ TNum \/ TSamp)
+TraceNext == l <= Len(Log) /\ (TStart \/ TStep \/ TInv \/ TZag \/ TRot \/ TArgs \/ TNum \/ TSamp \/ TApprox)
 TraceSpec == TraceInit /\ [][TraceNext]_tvars
 TraceAccepted == TLCGet(1) = TRUE
 
